@@ -5,11 +5,16 @@ package counts
 // float operations are lowered to exact rounding constraints (DESIGN B.1) and
 // Sprintf("%.Nf") is the contract "exact value, rounded half to even".
 
+// vpHumaner returns a copy of one of the two exported Humaners (every report
+// item holds its own copy; the exported variables themselves are never written).
 func vpHumaner() *Humaner {
+	var h Humaner
 	if vp_Choice("system", 2) == 0 {
-		return &Metric
+		h = Metric
+	} else {
+		h = Binary
 	}
-	return &Binary
+	return &h
 }
 
 // The specification's own prefix tables (powers of 1000 for counts, of 1024 for
@@ -166,13 +171,14 @@ var vpBinaryVectors = []vpHumanVec{
 // produce the numeral); the solver must prove that the numeral is the
 // expected one.
 func VPH_humanVectors() {
-	var h *Humaner
+	var hc Humaner
+	h := &hc
 	var vec vpHumanVec
 	unit := "cd"
 	if vp_Choice("system", 2) == 0 {
-		h, vec = &Metric, vpMetricVectors[vp_Choice("vector", len(vpMetricVectors))]
+		hc, vec = Metric, vpMetricVectors[vp_Choice("vector", len(vpMetricVectors))]
 	} else {
-		h, vec, unit = &Binary, vpBinaryVectors[vp_Choice("vector", len(vpBinaryVectors))], "B"
+		hc, vec, unit = Binary, vpBinaryVectors[vp_Choice("vector", len(vpBinaryVectors))], "B"
 	}
 	n := vp_U64("n")
 	vp_Assume(vp_ZEq(vp_ZU(n), vp_ZU(vec.n)))
@@ -207,6 +213,10 @@ func VPH_humanSequence() {
 	}
 	first := []uint64{5000000, 999, 1 << 60, 1023, 1 << 40}[vp_Choice("first", 5)]
 	h.FormatNumber(first, "B")
+	// optionally a second earlier rendering (up, down, then anything)
+	if k := vp_Choice("second", 5); k > 0 {
+		h.FormatNumber([]uint64{500, 2000000, 1 << 30, 0}[k-1], "B")
+	}
 	n := vp_U64("n")
 	numeral, unitString := h.FormatNumber(n, "B")
 	j := vpClass(&h, unitString)
